@@ -369,6 +369,25 @@ func runC10(c *Ctx) {
 		if !settled {
 			r.Count("inconclusive:not-quiescent")
 		}
+		// the Terminate callback of a killed process runs in a goroutine of its own, after the process has left the
+		// table: give every process that is gone the time to log its termination
+		logComplete := waitUntil(2*time.Second, func() bool {
+			termed := map[gen.PID]bool{}
+			es := l.snapshot()
+			for _, e := range es {
+				if e.kind == "term" {
+					termed[e.pid] = true
+				}
+			}
+			for _, e := range es {
+				if e.kind == "spawn" && !termed[e.pid] {
+					if _, err := k.Node.ProcessInfo(e.pid); err != nil {
+						return false
+					}
+				}
+			}
+			return true
+		})
 		evs := l.snapshot()
 		sort.Slice(evs, func(i, j int) bool { return evs[i].seq < evs[j].seq })
 		// ---- orphan oracle -------------------------------------------------------------------
@@ -455,7 +474,7 @@ func runC10(c *Ctx) {
 			}
 			emit(e.pid, byParent)
 		}
-		if settled && okReplay && len(deferred) == 0 {
+		if settled && okReplay && logComplete && len(deferred) == 0 {
 			outs, err := Model("tree", lines)
 			if err != nil {
 				r.Disagree("tree.driver", err.Error(), nil)
